@@ -323,6 +323,25 @@ def tag_sweep(tier, shard, nshards):
         if i % nshards == shard:
             yield {'pos': 'value', 'v': ['T', n]}
         i += 1
+    # every binary and decimal order of magnitude of the wide fields (three points each)
+    for tag, w, signed in (('I', 4, True), ('i', 4, False), ('l', 8, True),
+                           ('L', 8, True), ('T', 8, False)):
+        top_bits = 8 * w - (1 if signed else 0)
+        values = set()
+        for bits in range(8, top_bits + 1):
+            lo_b, hi_b = 1 << (bits - 1), (1 << bits) - 1
+            values.update([lo_b, (lo_b + hi_b) // 2, hi_b])
+        for e in range(2, 20):
+            for m in (1000, 2500, 9999):
+                values.update([10 ** e * m // 1000 - 1, 10 ** e * m // 1000])
+        for n in sorted(values):
+            for v in ([n, -n] if signed and tag != 'L' else [n]):
+                if -(1 << top_bits) <= v < (1 << top_bits) and \
+                        (tag != 'L' or v >= 0):
+                    if i % nshards == shard:
+                        yield {'pos': 'value' if n % 2 else 'table',
+                               'v': [tag, v] if n % 2 else [['k', [tag, v]]]}
+                    i += 1
 
 
 def catalogue_cases(tier, shard, nshards):
@@ -358,7 +377,8 @@ COMPONENTS = [
                        'and inside a method table / the headers property'),
     Component('tag-ranges', check_value, cases=tag_sweep, nontrivial=nontrivial,
               classes=classes, shards={'quick': 8, 'thorough': 8},
-              describe='every 8/16-bit value of tags t b B s u; boundaries of I i l L T'),
+              describe='every 8/16-bit value of tags t b B s u; boundaries and every binary / '
+                       'decimal order of magnitude of I i l L T'),
     Component('values', check_value, strategy=value_cases, nontrivial=nontrivial,
               classes=classes, budget={'quick': 16000, 'thorough': 480000},
               describe='wire values and tables over all 19 tags'),
